@@ -31,7 +31,7 @@ def native_build(unit_name, cpp, sessions, defines, wd):
 
 def native_run(exe, fn, inputs, wd, tag):
     path = os.path.join(wd, 'in_%s_%s.txt' % (fn, tag))
-    open(path, 'w').write('\n'.join(('S %d %d %d' % (x[1], x[2], x[3])) if isinstance(x, list) else ('I %d' % x) for x in inputs) + '\n')
+    open(path, 'w').write('\n'.join(('%s %d %d %d' % (x[0], x[1], x[2], x[3])) if isinstance(x, list) else ('I %d' % x) for x in inputs) + '\n')
     env = dict(os.environ)
     env['GLOG_logtostderr'] = '1'
     rc, out, err, dt = pipeline.sh([exe, fn, path], timeout=120, env=env)
@@ -81,6 +81,7 @@ def main():
         return pipeline.build_unit(uname, os.path.join(VERIF, u['cpp']), roots, defines=u.get('defines', ()),
                                    sessions=u.get('sessions', 2), cuts=u.get('cuts', ()), inline_all=u.get('inline_all', False),
                                    cdefs=u.get('cdefs', ()), all_hooks=u.get('all_hooks', False), coroutines=u.get('coroutines', ()), nested=u.get('nested', False),
+                                   intruder=u.get('intruder', False), new_hints=u.get('new_hints'),
                                    extra_c=[os.path.join(VERIF, x) for x in u.get('extra_c', ())])
     with ThreadPoolExecutor(max_workers=a.jobs) as ex:
         futs = {ex.submit(build, n): n for n in need}
@@ -104,18 +105,88 @@ def main():
                       recursion=h.get('recursion', 1), sync_bound=h.get('sync', 2))
             if 'solver' in h:
                 kw['solver'] = h['solver']
+            if h.get('windows'):
+                # kind S, intruder mode: one query per (hook site on A's path, visit) - a case split of the schedule space
+                import re as _re
+                w = h['windows']
+                sites = [x for x in units[h['unit']]['info'].get('sites', []) if x[2] in (0, 1) and any(_re.search(rx, x[1]) for rx in w['funcs'])]
+                if w.get('every'):
+                    sites = sites[::w['every']]
+                h['_parts'] = []
+                for x in sites:
+                    for v in w.get('visits', (1,)):
+                        kw2 = dict(kw)
+                        kw2['window'] = (x[0], x[0], v)
+                        kw2['witness'] = (v == 1)
+                        fu = ex.submit(pipeline.run_harness, units[h['unit']], h['fn'], tier, **kw2)
+                        hf[fu] = (h, (x[0], x[1], v))
+                continue
             hf[ex.submit(pipeline.run_harness, units[h['unit']], h['fn'], tier, **kw)] = h
         for f in as_completed(hf):
             h = hf[f]
+            part = None
+            if isinstance(h, tuple):
+                h, part = h
             try:
                 r = f.result()
             except Exception as e:
                 r = dict(fn=h['fn'], status='inconclusive', why='exception %r' % e, stats={})
+            if part is not None:
+                r['window'] = part
+                h['_parts'].append(r)
+                st = r.get('stats', {})
+                print('[%s]   %s site %d (%s) visit %d: %-12s %6.1fs steps %s %s' % (pid, h['fn'], part[0], part[1][-40:], part[2], r['status'], st.get('wall_s', 0),
+                                                                                 st.get('steps'), (r.get('why') or '')[:120]), flush=True)
+                continue
             r['spec'] = h
             results.append(r)
             st = r.get('stats', {})
             print('[%s] %-38s %-12s %6.1fs  props %s/%s  %s' % (pid, h['fn'], r['status'], st.get('wall_s', 0), r.get('discharged', '-'),
                                                              r.get('properties', '-'), r.get('why', '')[:200]), flush=True)
+        # aggregate the windowed queries of each intruder-mode harness
+        for h in specs:
+            if '_parts' not in h:
+                continue
+            parts = h.pop('_parts')
+            agg = dict(fn=h['fn'], spec=h, failed=[], reach_ok=[], samples=[], reach_missing=[], unwindset={}, log=[],
+                       stats=dict(queries=0, solver_s=0.0, wall_s=0.0, steps=0, vars=0, clauses=0, vccs=0, rss_kb=0), properties=0, discharged=0, windows=[])
+            incon, allreach = [], set()
+            for r in parts:
+                st = r.get('stats', {})
+                for k in ('queries', 'solver_s', 'wall_s'):
+                    agg['stats'][k] += st.get(k, 0)
+                for k in ('steps', 'vars', 'clauses', 'vccs', 'rss_kb'):
+                    agg['stats'][k] = max(agg['stats'][k], st.get(k, 0))
+                agg['properties'] += r.get('properties') or 0
+                agg['discharged'] += r.get('discharged') or 0
+                agg['windows'].append(dict(site=r['window'][0], fn=r['window'][1], visit=r['window'][2], status=r['status'], steps=st.get('steps'), wall_s=round(st.get('wall_s', 0), 1)))
+                if r['status'] == 'fail':
+                    for fl in r['failed']:
+                        if not any(f0['description'] == fl['description'] for f0 in agg['failed']):
+                            agg['failed'].append(fl)
+                elif r['status'] == 'inconclusive':
+                    incon.append('site %d visit %d: %s' % (r['window'][0], r['window'][2], r.get('why', '')[:100]))
+                for d in r.get('reach_ok', []):
+                    if d not in agg['reach_ok']:
+                        agg['reach_ok'].append(d)
+                        for sm in r.get('samples', []):
+                            if sm['reach'] == d and len(agg['samples']) < 4:
+                                agg['samples'].append(sm)
+                allreach.update(r.get('reach_ok', []))
+                allreach.update(r.get('reach_missing', []))
+            agg['reach_missing'] = sorted(allreach - set(agg['reach_ok']))
+            if agg['failed']:
+                agg['status'] = 'fail'
+            elif incon:
+                agg['status'] = 'inconclusive'
+                agg['why'] = '%d of %d windows inconclusive: %s' % (len(incon), len(parts), '; '.join(incon[:3]))
+            elif agg['reach_missing'] or not agg['reach_ok']:
+                agg['status'] = 'vacuous'
+                agg['why'] = 'witness not reachable in any window: ' + ','.join(agg['reach_missing'] or ['(none)'])
+            else:
+                agg['status'] = 'pass'
+            results.append(agg)
+            print('[%s] %-38s %-12s windows=%d  props %s/%s  %s' % (pid, h['fn'], agg['status'], len(parts), agg['discharged'], agg['properties'], agg.get('why', '')[:200]), flush=True)
         natives = {}
         for f in as_completed(nat):
             n = nat[f]
@@ -201,7 +272,8 @@ def main():
                             sat_vars=r.get('stats', {}).get('vars'), sat_clauses=r.get('stats', {}).get('clauses'),
                             ssa_steps=r.get('stats', {}).get('steps'), solver_s=round(r.get('stats', {}).get('solver_s', 0), 2),
                             wall_s=round(r.get('stats', {}).get('wall_s', 0), 2), peak_rss_kb=r.get('stats', {}).get('rss_kb'),
-                            unwind=dict((k, v) for k, v in (r.get('unwindset') or {}).items() if not k.startswith('yk_'))))
+                            unwind=dict((k, v) for k, v in (r.get('unwindset') or {}).items() if not k.startswith('yk_')),
+                            **({'schedule_windows': r['windows']} if r.get('windows') else {})))
     enc = {}
     for n, u in units.items():
         enc[n] = dict(cpp=UNITS[n]['cpp'], ll_sha256=u['info']['ll_sha256'], ll_lines=u['info']['ll_lines'], c_lines=u['info']['c_lines'],
